@@ -12,26 +12,40 @@
    stream, delivery orders, partitions and host turns. *)
 From TV.Lib Require Import Base.
 From TV.Stream Require Import Model Refs.
-From TV.Conn Require Import Gen Model Facts C12_proofs.
+From TV.Conn Require Import Gen Model Facts C12_proofs Tokens.
 Close Scope N_scope.
 
 (* Pairing.  In every reachable state, for every connection c:
    a connect that returned Ok (future state FutOk) was accepted — its id is in the
    accept log; it is in the accept log exactly when a server-side stream was created
-   for it; and the accepted stream's addresses mirror the connector's: its local
-   address is the connector's peer, its peer is the connector's local address, on the
-   host that owns the destination.
-   (_partial: that the accept log holds no id twice — a SYN is acknowledged at most
-   once — needs a conservation invariant for SYN tokens, which in the code is Rust's
-   move semantics of `Syn { ack }`; it is checked by the correspondence and the python
-   oracle only.) *)
-Theorem c12_pairing_partial : forall n cap lo hi es c k,
+   for it; the accepted stream's addresses mirror the connector's (its local address is
+   the connector's peer, its peer is the connector's local address, on the host that owns
+   the destination); and the accept log holds no id twice: a SYN is acknowledged at most
+   once, so every successful connect is matched by exactly one accepted stream. *)
+Theorem c12_pairing : forall n cap lo hi es c k,
   let w := final (init n cap lo hi) es in
   get_conn w c = Some k ->
   (k_fut k = FutOk -> In c (w_accepts w)) /\
   (In c (w_accepts w) <-> k_srv k <> None) /\
-  (forall d l p, k_srv k = Some (d, l, p) -> l = k_remote k /\ p = k_local k /\ k_dhost k = Some d).
-Proof. intros. apply pairing_lemma; [apply reach_winv|assumption]. Qed.
+  (forall d l p, k_srv k = Some (d, l, p) -> l = k_remote k /\ p = k_local k /\ k_dhost k = Some d) /\
+  NoDup (w_accepts w).
+Proof.
+  intros n cap lo hi es c k w Hc.
+  destruct (pairing_lemma w c k (reach_winv n cap lo hi es) Hc) as (P1 & P2 & P3).
+  split; [exact P1|]. split; [exact P2|]. split; [exact P3|]. apply reach_nodup.
+Qed.
+
+(* Conservation of SYN tokens (what Rust's move semantics of `Syn { ack }` gives the code):
+   in every reachable state each connection id occurs at most once in the links, the
+   matured queues, the loopback queues and the listeners' queues together, and only while
+   no server-side stream exists for it. *)
+Theorem c12_syn_token_unique : forall n cap lo hi es c,
+  let w := final (init n cap lo hi) es in
+  tokc c w <= 1 /\ (1 <= tokc c w -> srv_none w c).
+Proof.
+  intros n cap lo hi es c w. destruct (reach_tok n cap lo hi es) as [_ [T1 T2]].
+  split; [apply (T1 c)|intros Hc; apply T2; exact Hc].
+Qed.
 
 (* A pending connect completes with Ok exactly when its SYN was acknowledged by an
    accept, with Refused exactly when its SYN (and the ack channel it carries) was
@@ -167,7 +181,8 @@ Qed.
 Check c12_no_residue.
 Check c12_fifo.
 
-Print Assumptions c12_pairing_partial.
+Print Assumptions c12_pairing.
+Print Assumptions c12_syn_token_unique.
 Print Assumptions c12_poll_decided.
 Print Assumptions c12_fifo.
 Print Assumptions c12_accept_first_alive.
